@@ -505,4 +505,16 @@ theorem first_branch_only_loses_inherited_required :
     have hI : "I".toList ∈ bases demoTable "V".toList := by decide +kernel
     exact Reach.step (Reach.start hV) hI
 
+open Dcg.Sem Dcg.Sem.Pyd Dcg.Model.Translate in
+/-- REFUTATION (known finding C04-nullable-map-value-lost): a map object behind a nullable type list —
+`{"type": ["object", "null"], "additionalProperties": {"type": "integer"}}` — is generated as
+`Optional[Dict[str, Any]]`: the value schema does not reach the IR (`get_data_type` maps the entry `object` of the
+type list to `Dict[str, Any]`), so `{"k": "zq"}` is accepted. (`Schema.ndict` is outside `oneOfFree`, the region of
+`violation_rejected_partial`, for this reason.) -/
+theorem violation_accepted_nullable_map :
+    acceptsTy .v2 (fun _ _ => true) 6 [] (tr .v2 {} .plain (.ndict (.scalar .integer false {})))
+      (.obj [("k".toList, .str "zq".toList)]) = .accept ∧
+    validJN (fun _ _ => true) 6 [] (.ndict (.scalar .integer false {})) (.obj [("k".toList, .str "zq".toList)]) = false ∧
+    (Schema.ndict (.scalar .integer false {})).oneOfFree = false := by decide +kernel
+
 end Dcg.Props.C04
